@@ -30,8 +30,32 @@ def gen_ops(r):
     return ops
 
 
+def memo_keys_unique(ctx):
+    """the memo key starts with the NAME of the parser function: two memoised functions of one name would share entries"""
+    import svx_grammar, glob, re
+    try:
+        fs = [f for f in svx_grammar.functions() if "packrat_parser" in f["attrs"]]
+        names = {}
+        for f in fs:
+            names.setdefault(f["name"], []).append(f["file"])
+        dup = {n: fl for n, fl in names.items() if len(fl) > 1}
+        inmacro = []
+        for path in sorted(glob.glob(svx_grammar.SRC + "/**/*.rs", recursive=True)):
+            src = svx_grammar.strip_comments(open(path).read())
+            for m in re.finditer(r"macro_rules!\s*\w+\s*\{", src):
+                j = svx_grammar.match_brace(src, m.end() - 1)
+                if "packrat_parser" in src[m.end():j]:
+                    inmacro.append(os.path.relpath(path, svx_grammar.SRC))
+        ctx.obl("regenerated:every memoised parser function has a name of its own (the memo key starts with the name) and none is stamped out by a macro",
+                "regenerated", not dup and not inmacro and len(fs) > 500, ("duplicates %s; in macros %s" % (dup, inmacro))[:300] if (dup or inmacro) else "%d memoised parsers" % len(fs))
+    except Exception as e:
+        ctx.obl("regenerated:every memoised parser function has a name of its own (the memo key starts with the name) and none is stamped out by a macro",
+                "regenerated", False, "scan failed: %r" % (e,))
+
+
 def check(ctx):
     prove(ctx, "C17")
+    memo_keys_unique(ctx)
     build_impl(ctx)
     ensure_model(ctx)
     r = ctx.rng
@@ -86,6 +110,13 @@ def check(ctx):
     spec_zoo = [("sv", cx % (rp % nc)) for cx in CTX2 for rp in REPL for nc in NONCONST]
     spec_set = set(spec_zoo)
     srcs += spec_zoo if not q else r.sample(spec_zoo, 16) + [("sv", CTX2[0] % "{2{i++}}"), ("sv", CTX2[2] % "{2{i++}}"), ("sv", CTX2[7] % "{2{i++}}")]
+    # instantiation zoo: texts that several instantiation productions (module / interface / program / checker / udp / gate) try in
+    # turn at the same position, with connections that only one of them can read
+    INST = ["chk c1(.p(a |-> b));", "chk c1(.s(a ##1 b[*2]), .q(x));", "chk c2(a |=> b, c);", "sub u1(.p(a), .q(b + 1));", "sub u2(.*);", "sub #(3) u3(a, b), u4(c, d);",
+            "prim p1(o, a, b);", "sub u5 [1:0] (.p(a));", "chk c3(.p(@(posedge clk) a |-> b), .*);", "ifc i1(.clk, .rst(r));", "and (o, a, b);", "sub u6(.p(), .q(1'b0));"]
+    inst_zoo = [("sv", "module m; %s endmodule\n" % t) for t in INST] + [("sv", "module m; generate if (1) begin : g %s end endgenerate endmodule\n" % t) for t in INST[:6]]
+    spec_set |= set(inst_zoo)
+    srcs += inst_zoo
     # long operands: enough memo insertions between two uses of an entry to evict it at the default capacity
     longs = []
     for n in ((7, 9, 20) if q else (5, 6, 7, 8, 9, 12, 18, 19, 20, 24, 40)):
@@ -102,7 +133,7 @@ def check(ctx):
         small = (len(s) <= 120 or k == "pp") and (k, s) not in longs     # the long operands are exponential at tiny capacities
         caps = CAPS_SMALL if small else CAPS_BIG
         if (k, s) in spec_set:
-            caps = ("16", "48", "64", "200", "1024", "none")              # backtracking-heavy: tiny capacities take minutes
+            caps = ("8", "16", "48", "64", "200", "1024", "none") if (k, s) in set(inst_zoo) else ("16", "48", "64", "200", "1024", "none")   # backtracking-heavy: tiny capacities take minutes
         for cap in caps:
             c = Case("m%d_%s" % (i, cap))
             c.add("want", "tree", "text").add("memo", cap)
